@@ -127,7 +127,27 @@ def cmd_run(names: list[str]) -> int:
     return 0
 
 
+def cmd_expected() -> int:
+    """seeded/EXPECTED.json: property -> seed -> first rule that reports it (from the last FULL `run`)."""
+    R = json.load(open(os.path.join(SEEDED, "RESULTS.json")))
+    names = sorted(n for n in os.listdir(SEEDED) if os.path.isdir(os.path.join(SEEDED, n)))
+    missing = [n for n in names if n not in R]
+    if missing:
+        print("RESULTS.json is not from a full run; missing:", missing)
+        return 2
+    out: dict = {}
+    for sid, r in sorted(R.items()):
+        for p, f in r.get("fired", {}).items():
+            rule = [l.split()[1] for l in f["report"] if l.strip().startswith("rule")]
+            out.setdefault(p, {})[sid] = rule[0] if rule else "R-"
+    json.dump(out, open(os.path.join(SEEDED, "EXPECTED.json"), "w"), indent=1, sort_keys=True)
+    print("EXPECTED.json:", sum(len(v) for v in out.values()), "(property, seed) pairs")
+    return 0
+
+
 if __name__ == "__main__":
+    if len(sys.argv) > 1 and sys.argv[1] == "expected":
+        sys.exit(cmd_expected())
     if len(sys.argv) >= 4 and sys.argv[1] == "import":
         sys.exit(cmd_import(sys.argv[2], sys.argv[3], sys.argv[4] if len(sys.argv) > 4 else None))
     if len(sys.argv) >= 2 and sys.argv[1] == "run":
